@@ -143,9 +143,15 @@ def oracle_tree(rep: Report, root, spec, akai, rng):
         # the AKAI image upper-cases tokens: names that differ only in case (or a trailing colon) are one name to it
         sibs = [c.safe_name for c in n.parent.children]
         norm = (lambda s: (root._sanitize_string(s)))
-        if sum(1 for s in sibs if norm(s) == norm(n.safe_name)) > 1:
-            rep.feat("ambiguous_after_normalisation_skipped")
-            continue
+        same = [s for s in sibs if norm(s) == norm(n.safe_name)]
+        if len(same) > 1:
+            if akai and len({s.strip() for s in same}) == len(same):
+                # artificial: the AKAI image upper-cases tokens (and drops a trailing colon), but real AKAI
+                # names are upper-case and colon-free; such a collision cannot come from an AKAI image
+                rep.feat("akai_case_fold_ambiguity_skipped")
+                continue
+            rep.findings.append(Finding("ls-sibling-names-equal-after-normalisation", {"akai": akai, "spec": spec, "names": same}))
+            return
         for sep in ("/", "\\"):
             for pad in ("", "  "):
                 for trail in ("", sep):
@@ -180,6 +186,12 @@ def random_spec(rng, depth=0):
             items.append([name, None])
     if rng.random() < 0.4 and items:
         items.append(list(items[rng.randrange(len(items))]))
+    if rng.random() < 0.4 and items:
+        # a sibling that differs only by a character the sanitiser replaces, at either end or inside
+        base = items[rng.randrange(len(items))]
+        deco = rng.choice(["?", "/", "*", "\\", "\"", "'", "  ", "!"])
+        nm = rng.choice([base[0] + deco, deco + base[0], base[0][:1] + deco + base[0][1:]])
+        items.append([nm, None if base[1] is None else list(base[1])])
     return items
 
 
